@@ -157,6 +157,12 @@ where
         }
     }
 
+    /// Verification hook: real capacity of the open-element stack, in bytes.
+    #[cfg(feature = "_verif_hooks")]
+    pub fn verif_stack_capacity_bytes(&self) -> usize {
+        self.stack.verif_capacity_bytes()
+    }
+
     pub fn exec_for_start_tag(
         &mut self,
         local_name: LocalName<'_>,
